@@ -3,7 +3,7 @@ from .. import machine as M
 from ..core import hx, unhx
 
 DRIVERS = ["drv_machine", "drv_text", "drv_ansi"]
-GENERATED = ["Handlers", "Markers", "Ingest", "VteTable", "AnsiSgr", "RawLine"]
+GENERATED = ["Handlers", "Markers", "Ingest", "VteTable", "AnsiSgr", "RawLine", "ClaimGates"]
 
 WORDS = ["On", "branch", "main", "Your", "is", "up", "to", "date", "with", "origin/main.", "nothing", "commit,", "working",
          "tree", "clean", "Merge:", "Author:", "Date:", "Signed-off-by:", "日本語", "ünï", "émoji😀", "x=1;", "a\tb", "\ttabbed",
@@ -14,16 +14,73 @@ OPENER_PREFIXES = ["commit ", "diff ", "--- ", "+++ ", "@@", "rename from ", "re
                    "new mode ", "deleted file mode ", "new file mode ", "Binary files ", "Only in ", "Submodule ", "{"]
 
 
+# text that LOOKS like grep output (`path:line:code`, `path-line-context`, `path=line=header`, `key: value`, `a-b=c`, the
+# coloured form git grep / rg print) or almost like a `git blame` line, but is neither: delta was not started by a grep tool
+# and BLAME_RE (below, the pattern of src/handlers/blame.rs) does not match. Plain text as far as C04 is concerned.
+GREPLIKE = ["src/main.rs:12:fn main() {", "path/file.rs:12:code", "a-b=c", "key: value", "src/x.py-34-context", "lib.c=77=int f(void)",
+            "Makefile:all: build", "README.md-", "ratio=0.75 done", "step 3 - done", "warning: unused variable - `x`",
+            "\x1b[35msrc/a.rs\x1b[m\x1b[36m:\x1b[m\x1b[32m3\x1b[m\x1b[36m:\x1b[mlet x = 1;",
+            "\x1b[35msrc/a.rs\x1b[m\x1b[36m-\x1b[m\x1b[32m4\x1b[m\x1b[36m-\x1b[m    context",
+            "Changes not staged for commit:", "\t\x1b[31mmodified:   src/delta.rs\x1b[m", "9a8b7c6 build: bump version=0.18.3",
+            "\x1b[33m1a2b3c4\x1b[m fix: handle empty input", "Author: A U Thor <a@example.com>", "Date:   Mon Sep 28 10:00:00 2026 +0200",
+            "https://example.com/x?y=1", "12:34:56 INFO started", "foo.txt", "x.rs:1:", "a b.txt:3:with space", "dir/f.tar.gz:10:x",
+            "error[E0308]: mismatched types", "  --> src/lib.rs:4:5", "Compiling delta v0.18.2", "a=b", "n-1", ":", "-", "=",
+            "1a2b3c4d (A U Thor 2021-06-09 23:33:59 +0900 13 no closing paren", "1a2b3c4d (A U Thor 2021-06-09 23:33 +0900 13) short time",
+            "zzzz1234 (A U Thor 2021-06-09 23:33:59 +0900 13) not a hash", "1a2b3c4d A U Thor 2021-06-09 23:33:59 +0900 13) no open paren"]
+
+import re as _re
+BLAME_RE = _re.compile(r"^(\^?[0-9a-f]{4,40})(?: [^(]+)? \(([^ ](?:.*?[^ ])??) +([0-9]{4}-[0-9]{2}-[0-9]{2} [0-9]{2}:[0-9]{2}:[0-9]{2} [-+][0-9]{4}) +([0-9]+)\)(.*)$")
+
+
 def gen_text_line(rng):
     n = rng.randint(0, 8)
     s = " ".join(rng.choice(WORDS) for _ in range(n))
+    if rng.random() < 0.25:
+        s = rng.choice(GREPLIKE) + (" " + s if s and rng.random() < 0.3 else "")
     if rng.random() < 0.15:
         s = "    " + s          # commit message body
     if rng.random() < 0.05:
         s = s + "\r"
-    while any(M.strip_ansi(s.encode()).decode("utf-8", "replace").startswith(p) for p in OPENER_PREFIXES):
+    while any(M.strip_ansi(s.encode()).decode("utf-8", "replace").startswith(p) for p in OPENER_PREFIXES) \
+            or BLAME_RE.match(M.strip_ansi(s.encode()).decode("utf-8", "replace")):
         s = "." + s
     return s
+
+
+# options that only matter to the handlers which are not keyed on a literal marker (grep, blame, git show <rev>:<file>,
+# diff-stat): whatever their values, text that is not grep / blame output must not be touched by them
+HANDLER_OPTS = [["--grep-output-type", "classic"], ["--grep-output-type", "ripgrep"], ["--grep-file-style", "red"],
+                ["--grep-line-number-style", "bold green"], ["--grep-match-line-style", "blue"], ["--grep-match-word-style", "bold yellow"],
+                ["--grep-context-line-style", "raw"], ["--grep-header-decoration-style", "blue box"], ["--grep-header-file-style", "magenta"],
+                ["--grep-separator-symbol", "keep"], ["--blame-format", "{commit:<8} {author:<12}"], ["--blame-palette", "#101010 #202020"],
+                ["--blame-code-style", "syntax"], ["--blame-separator-format", "|{n:^5}|"], ["--blame-separator-style", "red"],
+                ["--blame-timestamp-format", "%Y-%m-%d"], ["--blame-timestamp-output-format", "%Y"], ["--default-language", "rs"],
+                ["--default-language", "no-such-language"], ["--diff-stat-align-width", "10"]]
+# calling processes that are neither a grep tool nor `git show <rev>:<file>` (value of DELTA_VERIF_FORCE_GUESS / _HOOK_CALLER)
+TEXT_CALLERS = ["none", "git diff", "git log -p", "git show HEAD", "git reflog", "git status", "git blame f.rs", "cargo build"]
+
+
+def handler_opts(rng, k=None):
+    """1-3 options of the family, no option twice; as `--opt=value` words"""
+    chosen, seen = [], set()
+    for o in rng.sample(HANDLER_OPTS, k or rng.choice([1, 1, 2, 3])):
+        if o[0] not in seen:
+            seen.add(o[0]); chosen.append(o)
+    return chosen
+
+
+class XCfg(M.VCfg):
+    """a verification configuration plus extra command-line words (handler options)"""
+
+    def __init__(self, extra=(), **kw):
+        super().__init__(**kw)
+        self.extra = list(extra)
+
+    def key(self):
+        return super().key() + (tuple(self.extra),)
+
+    def args(self):
+        return super().args() + self.extra
 
 
 def run(ctx, rep):
@@ -48,6 +105,8 @@ def run(ctx, rep):
     cases, meta = [], []
     for _ in range(ctx.n(250, 5000)):
         cfg = M.gen_cfg(rng)
+        if rng.random() < 0.4:
+            cfg = XCfg([o[0] + "=" + o[1] for o in handler_opts(rng)], **cfg.d)
         shape = rng.choice(["alone", "before", "around", "after-hunks", "after-hunkless", "log"])
         text = lambda k: [gen_text_line(rng) for _ in range(rng.randint(1, k))]
         lines, expect = [], []   # expect[i] = True if line i must pass through unchanged
@@ -78,7 +137,8 @@ def run(ctx, rep):
         meta.append((cfg, lines, expect, shape))
     res = M.observe(ctx, cases)
     for (cfg, lines, expect, shape), (impl, model) in zip(meta, res):
-        case = dict(args=cfg.args(), model_cfg=cfg.d, input="\n".join(lines), shape=shape)
+        extra = getattr(cfg, "extra", [])
+        case = dict(args=cfg.args(), model_cfg=cfg.d, extra_args=extra, input="\n".join(lines), shape=shape)
         ntext = sum(1 for e in expect if e)
         rep.case(key=(cfg.key(), tuple(lines)), nontrivial=ntext >= 3 and any(("\x1b" in l or "\t" in l) for l, e in zip(lines, expect) if e),
                  sample=dict(shape=shape, n_lines=len(lines), head=lines[:4]))
@@ -108,6 +168,22 @@ def run(ctx, rep):
                 sig = "text-after-hunkless-section-swallowed"
             else:
                 sig = "passthrough-altered:" + shape
+                if extra:
+                    # which of the handler options does it? (re-run with each of them alone)
+                    def still_fails(e):
+                        im, _ = M.observe(ctx, [(XCfg([e], **cfg.d), [l.encode("utf-8", "surrogateescape") for l in lines])], model=False)[0]
+                        if not im.ok or len(im.obs) <= k + 1:
+                            return False
+                        ch = im.out[(im.obs[k - 1]["written"] if k else 0):im.obs[k]["written"]]
+                        return not ch.endswith(want + b"\n")
+                    def without_fails():
+                        im, _ = M.observe(ctx, [(M.VCfg(**cfg.d), [l.encode("utf-8", "surrogateescape") for l in lines])], model=False)[0]
+                        if not im.ok or len(im.obs) <= k + 1:
+                            return False
+                        return not im.out[(im.obs[k - 1]["written"] if k else 0):im.obs[k]["written"]].endswith(want + b"\n")
+                    if not without_fails():
+                        bad = [e.split("=")[0] for e in extra if still_fails(e)]
+                        sig += ":handler-option:" + (bad[0] if bad else "+".join(sorted(e.split("=")[0] for e in extra)))
             rep.violation(sig, f"line {k} {lines[k]!r} was not passed through unchanged (written: {chunk[-120:]!r})", dict(case, line=k))
     # 2b. the real binary with --relative-paths (GIT_PREFIX set): the diff-stat handler, which the machine model leaves out
     #     (relative paths are off there), rewrites ` path | n ++--` lines; only lines that begin with a blank, met before the
@@ -193,21 +269,296 @@ def run(ctx, rep):
             k = next((k for k, (a, b) in enumerate(zip(got, want)) if a != b), min(len(got), len(want)))
             rep.violation("passthrough-altered:" + (args[1] if len(args) > 1 else "default"),
                           f"delta {' '.join(args)}: line {k} {want[k][:60] if k < len(want) else None!r} came out as {got[k][:80] if k < len(got) else None!r}", case)
+    # 2d. the real binary with options that only the grep / blame / git-show-file / diff-stat handlers read, given on the
+    #     command line, in a config file, in ~/.gitconfig, as a custom feature, through GIT_CONFIG_PARAMETERS; delta started by
+    #     something that is not a grep tool; text that looks like grep / blame output but is not
+    handler_option_oracle(ctx, rep)
+    # 2e. claim gates: model (Generated/ClaimGates.lean evaluated by DeltaModel/GatesRun.lean) vs which handler really took
+    #     the line (hook machine.run, calling process pinned per hook process)
+    gates_check(ctx, rep)
     # 3. ingest_line: model DeltaModel/Ingest.lean, hook machine.ingest, binary pass-through (b-ansi, vlib/ingest.py)
     from .. import ingest
     ingest.ingest_check(ctx, rep)
 
 
+OPTION_SOURCES = ["cli", "config-file", "home-gitconfig", "feature-flag", "feature-env", "git-config-parameters"]
+
+
+def materialize(source, opts, tmp, idx):
+    """Deliver `opts` ([[--name, value], …]) to delta through one of its option sources. Returns (argv words, env)."""
+    import os
+    body = "".join(f"    {o[0][2:]} = \"{o[1]}\"\n" for o in opts)
+    if source == "cli":
+        return ["--no-gitconfig"] + [w for o in opts for w in o], {}
+    if source == "config-file":
+        path = os.path.join(tmp, f"c{idx}.gitconfig")
+        open(path, "w").write("[delta]\n" + body)
+        return ["--config", path], {}
+    home = os.path.join(tmp, f"home{idx}")
+    os.makedirs(home, exist_ok=True)
+    if source == "home-gitconfig":
+        open(os.path.join(home, ".gitconfig"), "w").write("[delta]\n" + body)
+        return [], {"HOME": home}
+    if source in ("feature-flag", "feature-env"):
+        path = os.path.join(tmp, f"f{idx}.gitconfig")
+        open(path, "w").write("[delta \"my-grep-look\"]\n" + body)
+        if source == "feature-flag":
+            return ["--config", path, "--features", "my-grep-look"], {}
+        return ["--config", path], {"DELTA_FEATURES": "+my-grep-look"}
+    # an empty home: only `git -c delta.x=y` style parameters
+    return [], {"HOME": home, "GIT_CONFIG_PARAMETERS": " ".join("'delta.%s=%s'" % (o[0][2:], o[1]) for o in opts)}
+
+
+def handler_option_oracle(ctx, rep):
+    import os, tempfile
+    from ..core import parallel_map, b64, BUILD
+    rng = ctx.rng
+    os.makedirs(BUILD, exist_ok=True)
+    tmp = tempfile.mkdtemp(prefix="c04-opts-", dir=BUILD)
+    jobs = []
+    for idx in range(ctx.n(70, 900)):
+        opts = handler_opts(rng)
+        source = rng.choice(OPTION_SOURCES + ["cli"])
+        args, env = materialize(source, opts, tmp, idx)
+        caller = rng.choice(TEXT_CALLERS)
+        env = dict(env, DELTA_VERIF_FORCE_GUESS=caller)
+        shape = rng.choice(["text", "text", "log"])
+        lines, must = [], []
+        def put(l, m):
+            lines.append(l); must.append(m)
+        def text_block(k):
+            for _ in range(rng.randint(2, k)):
+                t = rng.choice(GREPLIKE) if rng.random() < 0.6 else gen_text_line(rng)
+                while any(M.strip_ansi(t.encode()).decode("utf-8", "replace").startswith(p) for p in OPENER_PREFIXES):
+                    t = "." + t
+                put(t, True)
+        text_block(9)
+        if shape == "log":
+            for _c in range(rng.randint(1, 2)):
+                put("\x1b[33mcommit " + M.HASH + "\x1b[m" if rng.random() < 0.5 else "commit " + M.HASH, False)
+                put("Author: A U Thor <a@example.com>", True); put("Date:   Mon Jan 1 00:00:00 2024 +0000", True); put("", True)
+                for _k in range(rng.randint(1, 4)):
+                    t = rng.choice(GREPLIKE)
+                    put("    " + t, True)      # commit message body: begins with blanks (no diff-stat rewriting without --relative-paths)
+                put("", True)
+                if rng.random() < 0.6:
+                    for l in M.gen_file(rng, kind="modified")["lines"]:
+                        put(l, False)
+        jobs.append((opts, source, args, env, caller, shape, lines, must))
+    def problem_of(shape, lines, must, rc, out, err):
+        """None if the text lines came through unchanged (pure text: the output IS the input; around rendered sections: every
+        text line is found unchanged, in order)"""
+        if rc != 0:
+            return f"exited {rc}: {err[-200:]!r}"
+        want = [l.encode("utf-8", "surrogateescape") for l in lines]
+        want = [w[:-1] if w.endswith(b"\r") else w for w in want]
+        got = out.split(b"\n")[:-1]
+        if shape == "text":
+            if got != want:
+                k = next((k for k, (a, b) in enumerate(zip(got, want)) if a != b), min(len(got), len(want)))
+                return f"line {k} {want[k][:70] if k < len(want) else None!r} came out as {got[k][:90] if k < len(got) else None!r}"
+            return None
+        pos = 0
+        for w, m in zip(want, must):
+            if not m:
+                continue
+            try:
+                pos = got.index(w, pos) + 1
+            except ValueError:
+                return f"text line {w[:70]!r} is not in the output (in order)"
+        return None
+    def one(j):
+        opts, source, args, env, caller, shape, lines, must = j
+        return ctx.run_delta(args + ["--paging", "never"], ("\n".join(lines) + "\n").encode("utf-8", "surrogateescape"), env=env)
+    for n, ((opts, source, args, env, caller, shape, lines, must), (rc, out, err)) in enumerate(zip(jobs, parallel_map(one, jobs, workers=8))):
+        data = ("\n".join(lines) + "\n").encode("utf-8", "surrogateescape")
+        case = dict(kind="handler-options", input_b64=b64(data), options=opts, source=source, caller=caller, shape=shape)
+        rep.case(key=("hopt", tuple(map(tuple, opts)), source, caller, tuple(lines)), nontrivial=sum(must) >= 3,
+                 sample=dict(shape="handler-options:" + shape, options=opts, source=source, caller=caller, head=lines[:3]))
+        rep.count("shape:handler-options"); rep.count("handler-options:source:" + source); rep.count("handler-options:caller:" + caller)
+        what = problem_of(shape, lines, must, rc, out, err)
+        if what is None:
+            continue
+        # which option does it? (each one alone, same source, same caller)
+        bad = []
+        r0 = ctx.run_delta(["--no-gitconfig", "--paging", "never"], data, env=dict(DELTA_VERIF_FORCE_GUESS=caller))
+        if problem_of(shape, lines, must, *r0) is not None:
+            # not a matter of these options at all
+            rep.violation("passthrough-altered:text:" + shape, f"delta --no-gitconfig, called by {caller!r}: {problem_of(shape, lines, must, *r0)}",
+                          dict(case, options=[], source="cli"))
+            continue
+        for o in (opts if len(opts) > 1 else []):
+            a1, e1 = materialize(source, [o], tmp, f"{n}-{o[0][2:]}")
+            r1 = ctx.run_delta(a1 + ["--paging", "never"], data, env=dict(e1, DELTA_VERIF_FORCE_GUESS=caller))
+            if problem_of(shape, lines, must, *r1) is not None:
+                bad.append(o)
+        if len(bad) >= 1:
+            case = dict(case, options=[bad[0]])
+        name = (bad[0][0] if bad else "+".join(sorted(o[0] for o in opts)))
+        sig = ("exit:%s:handler-option:%s" % (rc, name)) if rc != 0 else "passthrough-altered:handler-option:%s:%s" % (name, source)
+        rep.violation(sig, f"delta {' '.join(args)} (options {opts} from {source}, delta called by {caller!r}): {what}", case)
+    import shutil
+    shutil.rmtree(tmp, ignore_errors=True)
+
+
+# ------------------------------------------------------------------ claim gates: model vs implementation
+
+GATE_CALLERS = [("", "None"), ("git diff", "GitDiff"), ("git log -p", "GitLog"), ("git reflog", "GitReflog"), ("git blame f.rs", "GitBlame"),
+                ("git show HEAD:src/x.rs", "GitShow"), ("git grep -n x", "GitGrep"), ("rg x", "OtherGrep")]
+GATE_OPTION_FIELDS = {"--grep-output-type": "grep_output_type", "--relative-paths": "relative_paths"}
+BLAME_LINES = ["1a2b3c4d (A U Thor 2021-06-09 23:33:59 +0900 13) let x = 1;", "^1a2b3c4 src/old.rs (B 2020-01-01 00:00:00 +0000 1) fn f()",
+               "1a2b3c4d (A U Thor 2021-06-09 23:33:59 +0900 13)", "0123456789abcdef (x y 1999-12-31 23:59:59 -0800 99999)     code: a-b=c"]
+JSON_LINES = ['{"type":"match","data":{"path":{"text":"src/a.rs"},"lines":{"text":"let x = 1;\\n"},"line_number":3,"absolute_offset":0,'
+              '"submatches":[{"match":{"text":"x"},"start":4,"end":5}]}}', '{"type":"begin","data":{"path":{"text":"src/a.rs"}}}', '{"a": 1}', "{"]
+
+
+def gates_check(ctx, rep, cases=None):
+    """For single lines met in state Unknown: which handler took the line (state after the line: Grep / Blame / GitShowFile /
+    Unknown) vs what the gate model allows (`may`) and demands (`must`) given the calling process, the options, the prefixes and
+    the outcomes of the fixed regexes (asked from the implementation: grep.parse_regex, grep.json; BLAME_RE)."""
+    import os, re, subprocess
+    from ..core import LEAN, REPO, lake_build, hx as _hx
+    rng = ctx.rng
+    src = open(os.path.join(REPO, "src/handlers/grep.rs"), encoding="utf-8").read()
+    m = re.search(r"pub fn verif_regex\(.*?\n}\n", src, re.S)
+    names = re.findall(r"&(GREP_LINE_REGEX_\w+)", m.group(0)) if m else []
+    if len(names) != 5:
+        rep.corr_case("gates.claim", False, dict(error="verif_regex table of src/handlers/grep.rs not found")); return
+    if cases is None:
+        cases = []
+        for _ in range(ctx.n(160, 2500)):
+            r = rng.random()
+            line = (rng.choice(GREPLIKE) if r < 0.55 else rng.choice(BLAME_LINES) if r < 0.7 else rng.choice(JSON_LINES) if r < 0.8
+                    else gen_text_line(rng))
+            opts = handler_opts(rng) if rng.random() < 0.7 else []
+            cases.append(dict(caller=rng.randrange(len(GATE_CALLERS)), options=opts, line=line))
+    ok, blog = lake_build(["DeltaModel.GatesRun"])
+    if not ok:
+        rep.corr_case("gates.claim", False, dict(error="DeltaModel.GatesRun does not build", log=blog[-600:])); return
+    # implementation: one hook process per calling process
+    by_caller = {}
+    for i, c in enumerate(cases):
+        by_caller.setdefault(c["caller"], []).append(i)
+    impl, facts = {}, {}
+    for ci, idxs in by_caller.items():
+        hook = ctx.hook(extra_env={"DELTA_VERIF_HOOK_CALLER": GATE_CALLERS[ci][0]})
+        reqs, sticky = [], []
+        for i in idxs:
+            c = cases[i]
+            cfg = XCfg([o[0] + "=" + o[1] for o in c["options"]])
+            sticky.append(len(reqs))
+            reqs += M.hook_requests(cfg, [c["line"].encode("utf-8", "surrogateescape")])
+        resp = hook.ask(reqs, sticky=sticky)
+        q = []
+        for k, i in enumerate(idxs):
+            impl[i] = M.ImplRun(resp[2 * k + 1])
+            if impl[i].ok and impl[i].obs:
+                o = impl[i].obs[0]
+                q += ["grep.parse_regex 0 " + hx(o["raw"])] + [f"grep.parse_regex {r} " + hx(o["text"]) for r in range(1, 5)] + ["grep.json " + hx(o["text"])]
+        ans = hook.ask(q) if q else []
+        k = 0
+        for i in idxs:
+            if impl[i].ok and impl[i].obs:
+                facts[i] = [a.startswith("ok some") for a in ans[k:k + 6]]; k += 6
+    # model
+    HANDLERS = ["handle_git_show_file_line", "handle_blame_line", "handle_grep_line"]
+    STATE_OF = {"handle_git_show_file_line": "GitShowFile", "handle_blame_line": "Blame", "handle_grep_line": "Grep"}
+    reqs, ridx = [], []
+    for i, c in enumerate(cases):
+        if i not in facts:
+            continue
+        o = impl[i].obs[0]
+        text = o["text"].decode("utf-8", "replace")
+        opt_facts = {f: False for f in GATE_OPTION_FIELDS.values()}
+        for op in c["options"]:
+            if op[0] in GATE_OPTION_FIELDS:
+                opt_facts[GATE_OPTION_FIELDS[op[0]]] = True
+        rx = dict(zip(names, facts[i][:5]))
+        rx["ripgrep_json::parse_line"] = facts[i][5]
+        rx["BLAME_LINE_REGEX"] = bool(BLAME_RE.match(text))
+        for h in HANDLERS:
+            reqs.append(" ".join(["gates.eval", _hx(h), _hx("Unknown"), _hx(GATE_CALLERS[c["caller"]][1]), _hx(o["raw"]), _hx(o["text"]),
+                                  str(len(opt_facts))] + [f"{_hx(k)} {int(v)}" for k, v in opt_facts.items()] +
+                                 [str(len(rx))] + [f"{_hx(k)} {int(v)}" for k, v in rx.items()]))
+            ridx.append((i, h))
+    p = subprocess.run(["lake", "env", "lean", "--run", "DeltaModel/GatesRun.lean"], cwd=LEAN, input="\n".join(reqs) + "\n",
+                       stdout=subprocess.PIPE, stderr=subprocess.STDOUT, text=True)
+    answers = [l for l in p.stdout.split("\n") if l.strip()]
+    if p.returncode != 0 or len(answers) != len(reqs):
+        rep.corr_case("gates.claim", False, dict(error="gate model runner failed", log=p.stdout[-600:])); return
+    verdict = {}
+    for (i, h), a in zip(ridx, answers):
+        f = a.split(" ")
+        verdict.setdefault(i, {})[h] = (f[1] == "1", f[2] == "1") if f[0] == "ok" else None
+    for i, c in enumerate(cases):
+        if i not in verdict:
+            if impl[i].panic:
+                rep.violation("panic:" + impl[i].msg[:60], impl[i].msg[:200], dict(kind="gates", gate_case=c))
+            continue
+        o = impl[i].obs[0]
+        v = verdict[i]
+        state = o["state"]
+        took = next((h for h in HANDLERS if STATE_OF[h] == state), None)
+        if took is None and state == "Unknown" and impl[i].out == b"" :
+            took = "handle_grep_line"         # LineType::Ignore: claimed, nothing written, state kept
+        problems = []
+        if None in v.values():
+            problems.append("model runner rejected the request")
+        else:
+            if took is not None and not v[took][0]:
+                problems.append(f"{took} took the line although its gate cannot claim it")
+            for k, h in enumerate(HANDLERS):
+                if v[h][1] and not any(v[e][0] for e in HANDLERS[:k]):
+                    if took != h:
+                        problems.append(f"the gate of {h} must claim the line but the line was taken by {took}")
+                    break
+            if took is None and state not in ("Unknown",):
+                problems.append(f"state {state} after a single line met in state Unknown")
+        case = dict(kind="gates", gate_case=c, caller=GATE_CALLERS[c["caller"]], state_after=state, verdicts={h: v[h] for h in v},
+                    problems=problems)
+        rep.corr_case("gates.claim", not problems, case)
+        rep.count("gates:taken-by:" + str(took)); rep.count("gates:caller:" + GATE_CALLERS[c["caller"]][1])
+        rep.case(key=("gate", c["caller"], tuple(map(tuple, c["options"])), c["line"]), nontrivial=took is not None or bool(c["options"]),
+                 sample=dict(shape="gate", caller=GATE_CALLERS[c["caller"]][1], options=c["options"], line=c["line"][:60], taken_by=took))
+        # direct oracle (the property): with a caller that is no grep tool / git show, a line that is neither blame-shaped nor
+        # starts with `{` is taken by none of the three, whatever the options
+        if GATE_CALLERS[c["caller"]][1] not in ("GitGrep", "OtherGrep", "GitShow") and took is not None \
+                and not BLAME_RE.match(o["text"].decode("utf-8", "replace")) and not o["text"].startswith(b"{"):
+            bad = []
+            h0 = ctx.hook(extra_env={"DELTA_VERIF_HOOK_CALLER": GATE_CALLERS[c["caller"]][0]})
+            i0 = M.ImplRun(h0.ask(M.hook_requests(XCfg([]), [c["line"].encode("utf-8", "surrogateescape")]), sticky=[0])[1])
+            if i0.ok and i0.obs and i0.obs[0]["state"] == state:
+                c = dict(c, options=[])
+            for op in (c["options"] if len(c["options"]) > 1 else []):
+                h1 = ctx.hook(extra_env={"DELTA_VERIF_HOOK_CALLER": GATE_CALLERS[c["caller"]][0]})
+                r1 = h1.ask(M.hook_requests(XCfg([op[0] + "=" + op[1]]), [c["line"].encode("utf-8", "surrogateescape")]), sticky=[0])
+                i1 = M.ImplRun(r1[1])
+                if i1.ok and i1.obs and i1.obs[0]["state"] == state:
+                    bad.append(op)
+            rep.violation("claimed-without-grep-tool:%s:%s" % (took, (bad[0][0] if bad else "+".join(sorted(o[0] for o in c["options"])) or "defaults")),
+                          f"{took} took the line {c['line'][:80]!r} although delta was called by {GATE_CALLERS[c['caller']][0] or 'nothing known'!r}"
+                          f" (options {c['options']})", case)
+
+
 def replay(ctx, rep, obj):
     c = obj["case"]
-    if c.get("kind") == "relative-paths":
+    if c.get("kind") == "gates":
+        return gates_check(ctx, rep, [c["gate_case"]])
+    if c.get("kind") == "handler-options":
+        import base64, tempfile
+        with tempfile.TemporaryDirectory() as tmp:
+            args, env = materialize(c["source"], c["options"], tmp, 0)
+            rc, out, err = ctx.run_delta(args + ["--paging", "never"], base64.b64decode(c["input_b64"]),
+                                         env=dict(env, DELTA_VERIF_FORCE_GUESS=c["caller"]))
+        print(out.decode("utf-8", "replace")); return
+    if c.get("kind") in ("relative-paths", "binary"):
         import base64
         rc, out, err = ctx.run_delta(c["args"], base64.b64decode(c["input_b64"]), env=c["env"])
         print(out.decode("utf-8", "replace")); return
     if str(c.get("kind", "")).startswith("ingest-"):
         from .. import ingest
         return ingest.ingest_replay(ctx, rep, c)
-    cfg = M.VCfg(**c["model_cfg"])
+    cfg = XCfg(c.get("extra_args") or [], **c["model_cfg"])
     lines = c["input"].split("\n")
     impl, model = M.observe(ctx, [(cfg, [l.encode("utf-8", "surrogateescape") for l in lines])])[0]
     print(impl.out.decode("utf-8", "replace"))
